@@ -7,6 +7,10 @@
 //!            r  the port is closed (connection refused)
 //!            c  the peer accepts and closes at once (tcp: a lost connection; tls: a failed handshake)
 //!            s  the peer accepts, serves one request, then closes (tcp only)
+//!            e  the peer accepts; once Connected is announced the channel is disabled and enabled again (the
+//!               connection ends without a wait; a successful connection must have reset the back-off)
+//!            q  refused, and while the announced wait is pending a request is submitted (it fails with
+//!               NoConnection and must not shorten the wait)
 //!            d  refused, and while the announced wait is pending the channel is disabled and enabled again
 //!               (the wait is abandoned: mark 'i' = a Disabled announcement lies between the wait and the
 //!               next Connecting)
@@ -433,7 +437,7 @@ async fn scenario(line: String, ip: Ipv4Addr, n: usize) -> String {
             return "NOCONNECTING".to_string();
         }
         match outcome {
-            'r' | 'd' => listener = None,
+            'r' | 'd' | 'q' => listener = None,
             _ => {
                 if listener.is_none() {
                     listener = bind(addr).await;
@@ -446,6 +450,54 @@ async fn scenario(line: String, ip: Ipv4Addr, n: usize) -> String {
         let _ = permit_tx.send(()).await;
         match outcome {
             'r' => {}
+            'q' => {
+                loop {
+                    match tokio::time::timeout(limit, ev_rx.recv()).await {
+                        Ok(Some((s, t))) => {
+                            log.push((s, t));
+                            if let ClientState::WaitAfterFailedConnect(_) = s {
+                                break;
+                            }
+                        }
+                        _ => return "NOWAIT".to_string(),
+                    }
+                }
+                let p = RequestParam::new(UnitId::new(1), Duration::from_secs(2));
+                let _ = tokio::time::timeout(Duration::from_secs(3), channel.read_holding_registers(p, AddressRange::try_from(0, 1).unwrap())).await;
+            }
+            'e' => {
+                let l = listener.as_ref().unwrap();
+                let sock = match tokio::time::timeout(Duration::from_secs(3), l.accept()).await {
+                    Ok(Ok((sock, _))) => sock,
+                    _ => return "NOACCEPT".to_string(),
+                };
+                loop {
+                    match tokio::time::timeout(limit, ev_rx.recv()).await {
+                        Ok(Some((s, t))) => {
+                            log.push((s, t));
+                            if s == ClientState::Connected {
+                                break;
+                            }
+                        }
+                        _ => return "NOCONNECTED".to_string(),
+                    }
+                }
+                let _ = channel.disable().await;
+                // the connection must be ended by the disable, not by the peer: keep the socket until Disabled is announced
+                loop {
+                    match tokio::time::timeout(limit, ev_rx.recv()).await {
+                        Ok(Some((s, t))) => {
+                            log.push((s, t));
+                            if s == ClientState::Disabled {
+                                break;
+                            }
+                        }
+                        _ => return "NODISABLED".to_string(),
+                    }
+                }
+                let _ = channel.enable().await;
+                drop(sock);
+            }
             'd' => {
                 // wait for the announcement of the wait, then disable and enable the channel
                 loop {
